@@ -90,6 +90,7 @@ commit(ec_curve_t *E_com, quat_left_ideal_t *lideal_com)
     if (found) {
         copy_curve(E_com, &F.codomain.E2);
     }
+    theta_chain_finalize(&F);
 
     ibz_finalize(&n);
     ibz_finalize(&adj);
@@ -1052,6 +1053,7 @@ protocols_verif(signature_t *sig, const public_key_t *pk, const unsigned char *m
         extra_info);
     // a chain whose codomain does not split as a product of elliptic curves is rejected
     if (!chain_ok) {
+        theta_chain_finalize(&isog);
         goto cleanup;
     }
 
@@ -1113,6 +1115,7 @@ protocols_verif(signature_t *sig, const public_key_t *pk, const unsigned char *m
             verif = (ibz_cmp(&vec_chall[1], &check_vec_chall[1]) == 0);
         }
     }
+    theta_chain_finalize(&isog);
 
 cleanup:
     ibz_finalize(&remain);
